@@ -59,11 +59,11 @@ func (g *c01Gen) lit() string {
 }
 
 const c01NSteps = 26
-const c01NSinks = 11
+const c01NSinks = 12
 
 var c01StepNames = []string{"let", "array-index", "hash-index", "userfn-identity", "gohelper-identity", "gohelper-typed", "concat-left", "concat-right",
 	"for-var", "if-block", "else-block", "helper-block", "contentFor-body", "contentOf-data", "partial-data", "partial-layout", "userfn-body", "userfn-param-body", "nested-array", "concat-with-trusted-right", "concat-with-trusted-left", "helper-with-HTML-parameter", "stored-into-[]template.HTML", "stored-into-map-of-template.HTML", "appended-to-[]template.HTML", "debug()"}
-var c01SinkNames = []string{"out", "if-return", "array-literal", "for-return", "hash-index-out", "let-then-out", "typed-strings-slice", "ifaces-slice", "for-over-typed-slice", "helper-block-left-by-break", "helper-block-left-by-continue"}
+var c01SinkNames = []string{"out", "if-return", "array-literal", "for-return", "hash-index-out", "let-then-out", "typed-strings-slice", "ifaces-slice", "for-over-typed-slice", "helper-block-left-by-break", "helper-block-left-by-continue", "typed-container-printed-whole"}
 
 func (g *c01Gen) choose(n int) int {
 	if g.depthPos < len(g.forceSeq) && g.forceSeq[g.depthPos] >= 0 {
@@ -122,8 +122,15 @@ func (g *c01Gen) route(d int, expr string, v c01Val) (string, []c01Seg) {
 		case 9:
 			// what a helper's block has produced when a break ends it is output like any other
 			return l1 + "<%= for (q) in [1, 2] { %><%= cap() { %>(<%= " + expr + " %><% break %>never<% } %>never<% } %>" + l2, []c01Seg{{lit: l1}, {lit: "("}, {val: &v}, {lit: l2}}
-		default:
+		case 10:
 			return l1 + "<%= for (q) in [1, 2] { %><%= cap() { %>(<%= " + expr + " %><% continue %>never<% } %>never<% } %>" + l2, []c01Seg{{lit: l1}, {lit: "("}, {val: &v}, {lit: "("}, {val: &v}, {lit: l2}}
+		default:
+			// a Go slice typed by its element type, printed whole like []string is
+			mk := "mkstrs"
+			if v.trusted {
+				mk = "mkTypedHTMLs"
+			}
+			return l1 + "<%= " + mk + "(" + expr + ") %>" + l2, []c01Seg{{lit: l1}, {val: &v}, {val: &v}, {lit: l2}}
 		}
 	}
 	k := g.choose(c01NSteps)
@@ -370,6 +377,15 @@ func c01Ctx(partials map[string]string) *plush.Context {
 	ctx.Set("mkstrs", func(s string) []string { return []string{s, s} })
 	ctx.Set("mkhtmls", func(s interface{}) []interface{} { return []interface{}{s, s} })
 	ctx.Set("mkifaces", func(s interface{}) []interface{} { return []interface{}{s, s} })
+	ctx.Set("mkTypedHTMLs", func(s interface{}) interface{} {
+		switch h := s.(type) {
+		case template.HTML:
+			return []template.HTML{h, h}
+		case plush.HTMLer:
+			return []template.HTML{h.HTML(), h.HTML()}
+		}
+		return []interface{}{s, s}
+	})
 	ctx.Set("cap", func(h plush.HelperContext) (template.HTML, error) {
 		s, err := h.Block()
 		return template.HTML(s), err
@@ -529,7 +545,7 @@ func c01Run(b *core.B) {
 		if srcK >= 16 {
 			// a reflect.Value is only a string for the output sink, not for
 			// typed helpers or operators: direct emission only
-			if depth != 0 || len(force) != 1 || force[0] == 6 || force[0] == 8 {
+			if depth != 0 || len(force) != 1 || force[0] == 6 || force[0] == 8 || force[0] == 11 {
 				return
 			}
 		}
